@@ -2,6 +2,7 @@ package props
 
 import (
 	"fmt"
+	"go/token"
 	"go/types"
 	"sort"
 	"strings"
@@ -111,22 +112,33 @@ func runC05(c *an.Ctx) {
 
 	// ---- R3 defaults re-seeded outside the first-use branch.
 	nSeed := 0
-	an.Instrs(nt, func(in ssa.Instruction) {
-		if !(an.IsCallToMethod(in, fullColl, "Single", "Set") || an.IsCallToMethod(in, fullColl, "Map", "Set")) {
-			return
-		}
-		call := an.CallOf(in)
-		recv := an.Expr(call.Args[0])
-		if !strings.Contains(recv, ".variables.") {
-			return
-		}
-		recv = recv[strings.Index(recv, ".variables.")+1:]
-		nSeed++
-		f := an.FactsAt(in)
-		ok := !f.HasSuffix(".requestBodyBuffer", "==", "nil")
-		c.Check(ok, "R3", "newTransaction seeds "+strings.TrimPrefix(recv, "variables.")+" for recycled objects too", in.Pos(),
-			"default value set outside the first-use branch", "the default for "+recv+" is only set when the object is brand new (requestBodyBuffer == nil): a recycled transaction starts without it")
-	})
+	// the seeds may sit in newTransaction itself or in private helpers of the package it hands the
+	// transaction to (setInitialVariables, setTimeVariables): a helper's seeds run under the facts of its call
+	var seedsIn func(f *ssa.Function, outer an.Facts, d int)
+	seedsIn = func(f *ssa.Function, outer an.Facts, d int) {
+		an.Instrs(f, func(in ssa.Instruction) {
+			if cc := an.CallOf(in); cc != nil && d < 2 {
+				if h := cc.StaticCallee(); h != nil && h != nt && h != f && relPkg(h) == pkgWAF && len(h.Blocks) > 0 && !token.IsExported(h.Name()) && h.Parent() == nil {
+					seedsIn(h, append(append(an.Facts{}, outer...), an.FactsAt(in)...), d+1)
+				}
+			}
+			if !(an.IsCallToMethod(in, fullColl, "Single", "Set") || an.IsCallToMethod(in, fullColl, "Map", "Set")) {
+				return
+			}
+			call := an.CallOf(in)
+			recv := an.Expr(call.Args[0])
+			if !strings.Contains(recv, ".variables.") {
+				return
+			}
+			recv = recv[strings.Index(recv, ".variables.")+1:]
+			nSeed++
+			f2 := append(append(an.Facts{}, outer...), an.FactsAt(in)...)
+			ok := !f2.HasSuffix(".requestBodyBuffer", "==", "nil")
+			c.Check(ok, "R3", "newTransaction seeds "+strings.TrimPrefix(recv, "variables.")+" for recycled objects too", in.Pos(),
+				"default value set outside the first-use branch", "the default for "+recv+" is only set when the object is brand new (requestBodyBuffer == nil): a recycled transaction starts without it")
+		})
+	}
+	seedsIn(nt, nil, 0)
 	c.MinCount("R3", "default seeds in newTransaction", nSeed, 10)
 
 	// ---- R4 buffers.
